@@ -42,6 +42,16 @@ CHECKS = [
              "current value with no stale area/volume cache, fluid/custom components keep their dimensions. The shape x material product is complete; "
              "temperatures and paths are sampled.",
      "note": NOTE},
+    {"property_id": "C02",
+     "technique": "runtime monitoring: additivity ledger recomputed from leaf components after every edit + read-back oracle per composition edit",
+     "text": "Generated blocks of every extruded shape/multiplicity/material, assemblies, and third-/full-core reactors built from generated blueprints "
+             "(symmetry factors 1 and 3 observed) are driven through random histories of composition edits at component, block, assembly and core level, "
+             "interleaved with temperature and height changes. After every edit a ledger recomputed from the leaf components only (volume, N*V per "
+             "nuclide, mass per nuclide and per nuclide/element/list selection) must equal what each parent reports, mass must equal density x volume, "
+             "mass fractions must sum to one, and the law of the edit is checked (requested value reads back, every other nuclide unchanged, proportions "
+             "and total density kept for mass-fraction edits); densityTools conversions are checked as inverse pairs against N = rho*w*NA/A.",
+     "note": NOTE + " Mass edits addressed by an elemental name in an object that also holds isotopes of that element are not judged (the "
+             "specifier rule resolves the name per component by design)."},
 ]
 
 _claimed = {c["property_id"] for c in CHECKS}
